@@ -215,11 +215,19 @@ class Module:
 
     def _add_func(self, node, cls, parent, prefix):
         qual = prefix + node.name
+        first = qual not in self.funcs
+        if not first:
+            # conditional redefinition (e.g. the PyPy arm of json.py): the first
+            # definition keeps the plain name
+            k = 2
+            while "%s#%d" % (qual, k) in self.funcs:
+                k += 1
+            qual = "%s#%d" % (qual, k)
         fi = FuncInfo(self, qual, node, cls=cls, parent=parent)
         self.funcs[qual] = fi
-        if cls is not None and parent is None:
+        if cls is not None and parent is None and first:
             cls.methods[node.name] = fi
-        if parent is not None:
+        if parent is not None and first:
             parent.nested[node.name] = fi
         # nested defs and lambdas
         for n in iter_own_nodes(node):
